@@ -239,6 +239,9 @@ func asyncSQLf(items []string, run, failrow int) string {
 			parts = append(parts, fmt.Sprintf("ONCE.of(a) AS c%d", n))
 		case "oncenull":
 			parts = append(parts, fmt.Sprintf("ONCE.ofn(a) AS c%d", n))
+		case "oncearg":
+			// 1 on the first row, a division by zero on the second: read for the one invocation only
+			parts = append(parts, fmt.Sprintf("ONCE.of(a / (2 - a)) AS c%d", n))
 		}
 	}
 	return "SELECT " + strings.Join(parts, ", ") + " FROM t"
@@ -263,7 +266,7 @@ func asyncWant(items []string, nrows int) []any {
 			switch k {
 			case "col", "sync", "async", "fail":
 				row[key] = float64(r * 10)
-			case "once":
+			case "once", "oncearg":
 				row[key] = float64(10)
 			case "oncenull":
 				row[key] = nil
@@ -343,7 +346,7 @@ func checkAsyncOutcome(r *asyncRun, items []string, nrows int, res execResult, s
 				}
 			}
 		}
-		if (k == "once" || k == "oncenull") && r.onceInv != 1 && nrows > 0 {
+		if (k == "once" || k == "oncenull" || k == "oncearg") && r.onceInv != 1 && nrows > 0 {
 			v := fail("invocations", sql, sig, "the ONCE function was invoked %d times in one query", r.onceInv)
 			return &v
 		}
@@ -387,7 +390,7 @@ func checkC14(c Node) Verdict {
 	if n, _ := c["nested"].(bool); !n && c["window"] != "empty" && num(c["failrow"]) == 0 && num(c["nrows"]) >= 2 {
 		once := false
 		for _, k := range strs(c["items"]) {
-			once = once || k == "once" || k == "oncenull"
+			once = once || k == "once" || k == "oncenull" || k == "oncearg"
 		}
 		if !once {
 			// the same rows as a two-dimensional table: every inner array is evaluated by a copy of the query, whose
